@@ -410,7 +410,7 @@ def run(chk):
             orig = {c[1][i]: c[1][i + 1] for i in range(3, len(c[1]), 2)}
             orig[b"x_1.0-1." + c[1][0]] = bytes.fromhex(text[1:])
             if ents.get(b"outside/precious", b"precious") != b"precious":
-                chk.violate({"kind": "property", "class": "copy-follows-destination-symlink", "case": lib.show_case(c), "impl": r[:600],
+                chk.violate({"kind": "property", "case": lib.show_case(c), "impl": r[:600],
                              "explanation": "a file outside the control file's directory and the destination was overwritten: the destination held a symbolic link named like a listed file, and the copy was written through it"})
                 continue
             for where, content in ents.items():
@@ -427,6 +427,71 @@ def run(chk):
                         why = why or "after a nil error the file %s is nowhere byte-identical to the original" % n.decode()
         if why:
             chk.violate({"kind": "property", "case": lib.show_case(c), "impl": r[:900], "explanation": why})
+    # names that denote other files (model U20L): the directories already hold symbolic links - under a listed name in the
+    # destination (to a file outside, to nothing, to the upload's own file, to another name of the destination, to itself),
+    # in place of a listed file in the source - and Copy runs into that.  What every name IS afterwards (a file with its
+    # bytes, a link with its target), model against the real file system; and the statement itself: nothing outside the
+    # destination directory changed, after a nil error every name of the upload reads the same bytes in both places.
+    lc = []
+    OUT = [b"O", b"x", b"F", b"precious", b"O", b"y", b"F", b"yyy", b"D", b"z", b"F", b"zzz"]
+    def s_states(n):
+        return [[b"S", n, b"F", b"content of " + n], [b"S", n, b"L", b"O/y"], [b"S", n, b"L", b"O/nothing"], []]
+    def d_states(n, other):
+        return [[], [b"D", n, b"F", b"old bytes, longer than the new ones " * 3], [b"D", n, b"L", b"O/x"], [b"D", n, b"L", b"O/nothing"],
+                [b"D", n, b"L", b"S/" + n], [b"D", n, b"L", b"D/z"], [b"D", n, b"L", b"D/" + other], [b"D", n, b"L", b"D/" + n],
+                [b"D", n, b"L", b"D/hop-" + n, b"D", b"hop-" + n, b"L", b"O/x"]]
+    for kind in (b"dsc", b"changes"):
+        ctl = b"x_1.0-1." + kind
+        for ss in s_states(b"a.tar"):
+            for ds in d_states(b"a.tar", b"b.tar"):
+                for cs in d_states(ctl, b"a.tar")[:6]:
+                    lc.append((kind, [b"a.tar"], ss + ds + cs + OUT))
+        for _ in range(chk.n(150, 3000)):
+            names = [b"a.tar", b"b.tar", b"c.tar"][:chk.rng.randrange(0, 4)]
+            nodes = []
+            for k, n in enumerate(names):
+                nodes += chk.rng.choice(s_states(n)[:3] * 3 + [[]]) + chk.rng.choice(d_states(n, names[(k + 1) % len(names)]))
+            nodes += chk.rng.choice(d_states(ctl, b"a.tar")[:6])
+            lc.append((kind, names, nodes + OUT))
+    lic = [("copylinks", [kind, len(names)] + names + nodes) for kind, names, nodes in lc]
+    limpl = chk.run_impl(lic)
+    lmc, lpi = [], []
+    for (kind, names, nodes), i in zip(lc, limpl):
+        text = bytes.fromhex(i.rsplit(" ", 1)[1][1:]) if " " in i else b""
+        lmc.append(("copylinks", [b"x_1.0-1." + kind, len(names)] + names + nodes + [b"S", b"x_1.0-1." + kind, b"F", text]))
+        lpi.append(i.rsplit(" ", 1)[0] if " " in i else i)
+    lmodel = chk.run_model(lmc)
+    chk.compare("links-in-the-directories-vs-model", lmc, lpi, lmodel, nontrivial=lambda c, r: True, kernel=False)
+    for k in range(0, len(lmc), max(1, len(lmc) // 20)):
+        chk.kernel_pool.append((lmc[k], lmodel[k]))
+    for (kind, names, nodes), c, i in zip(lc, lic, limpl):
+        if i.split(" ", 1)[0] not in ("ok", "err"):
+            chk.violate({"kind": "property", "case": lib.show_case(c), "impl": i[:300], "explanation": "the copy did not finish normally"})
+            continue
+        after = {bytes.fromhex(a): (k_, bytes.fromhex(b)) for a, k_, b in re.findall(r"\( x([0-9a-f]*) ([FL]) x([0-9a-f]*) \)", i)}
+        before = {nodes[j] + b"/" + nodes[j + 1]: (nodes[j + 2].decode(), nodes[j + 3]) for j in range(0, len(nodes), 4)}
+        ctl = b"x_1.0-1." + kind
+        before[b"S/" + ctl] = ("F", bytes.fromhex(i.rsplit(" ", 1)[1][1:]))
+        def read(fs, name, fuel=40):
+            while fuel and name in fs and fs[name][0] == "L":
+                name, fuel = fs[name][1], fuel - 1
+            return fs[name][1] if fuel and name in fs and fs[name][0] == "F" else None
+        why = None
+        for name, node in before.items():
+            if not name.startswith(b"D/") and after.get(name) != node:
+                why = "%s, outside the destination directory, was %s and is %s after the copy" % (name.decode(), node, after.get(name))
+        for name in after:
+            if not name.startswith(b"D/") and name not in before:
+                why = "%s appeared outside the destination directory" % name.decode()
+        if i.startswith("ok"):
+            for n in names + [ctl]:
+                if read(after, b"D/" + n) is None or read(after, b"D/" + n) != read(before, b"S/" + n):
+                    why = why or "after a nil error %s in the destination does not read the bytes of the original" % n.decode()
+        elif after.get(b"D/" + ctl) != before.get(b"D/" + ctl) and (b"D/" + ctl) in after:
+            why = why or "the copy failed but a control file was put into the destination"
+        if why:
+            chk.violate({"kind": "property", "case": lib.show_case(c), "impl": i[:900], "explanation": why})
+    chk.extra["link_scenarios"] = len(lc)
     chk.extra["history_scenarios"] = len(hist)
     chk.extra["scenarios"] = len(scs)
     chk.trusted.append("the OS file system (ext4/overlay under /var/tmp) and inotify as the observer of the order of appearance")
